@@ -241,6 +241,45 @@ func randHistory(r *vf.Rng, maxBlocks int) *History {
 		}
 		h.Blocks = append(h.Blocks, b)
 	}
+	// nearly full blocks: a small block gas limit; in some blocks a sender whose first
+	// transaction spends most of its money and whose second one therefore fails in
+	// the worker (no money for the gas it asks for, or for the value), followed by
+	// cheaper transactions of other senders whose gas LIMITS are steered around what
+	// is really left in the block (from "exactly the block limit" down to "fits")
+	if r.Chance(40) {
+		h.GasLimit = []uint64{1200000, 1500000, 2500000}[r.Intn(3)]
+		drained := map[int]bool{}
+		for i := 0; i < nb; i++ {
+			if !r.Chance(45) {
+				continue
+			}
+			a := r.Intn(nAcct - 1)
+			if drained[a] {
+				continue
+			}
+			drained[a] = true
+			b := &h.Blocks[i]
+			hi := uint64(16*6 + a)
+			b.Txs = append(b.Txs, TxIn{Kind: "transfer", From: a, To: (a + 1) % nAcct, Value: "600" + YOU, Gas: 21000, Price: hi})
+			switch r.Intn(3) {
+			case 0: // cannot pay for its gas any more: 1 000 000 gas at 4.5e14
+				b.Txs = append(b.Txs, TxIn{Kind: "call", From: a, To: 3, Gas: 1000000, Price: 450000000000000 + uint64(a)})
+			case 1: // cannot pay the value any more
+				b.Txs = append(b.Txs, TxIn{Kind: "transfer", From: a, To: (a + 2) % nAcct, Value: "600" + YOU, Gas: uint64(21000 + r.Intn(400000)), Price: hi})
+			default: // both kinds
+				b.Txs = append(b.Txs, TxIn{Kind: "transfer", From: a, To: (a + 2) % nAcct, Value: "600" + YOU, Gas: 300000, Price: hi})
+				b.Txs = append(b.Txs, TxIn{Kind: "call", From: a, To: 3, Gas: 900000, Price: 450000000000000 + uint64(a), NonceDelta: 0})
+			}
+			for k := 1 + r.Intn(3); k > 0; k-- {
+				c := (a + 1 + r.Intn(nAcct-2)) % (nAcct - 1)
+				if c == a {
+					continue
+				}
+				below := []uint64{1, 1, 1 + uint64(r.Intn(20999)), 21000, 21001, 21002, 1 + uint64(r.Intn(90000)), 1 + uint64(r.Intn(400000))}[r.Intn(8)]
+				b.Txs = append(b.Txs, TxIn{Kind: "call", From: c, To: r.Intn(4), Value: fmt.Sprintf("%d", r.Intn(50)), Gas: 100000, GasBelow: below, Price: uint64(16*(1+r.Intn(3)) + c)})
+			}
+		}
+	}
 	// the pending-total scenario: inside one staking period a validator gets a
 	// pending (0x0,V) record, then a delegation above MaxStakes (included as a
 	// failed transaction), then, in a later block of the same period, further
@@ -437,6 +476,9 @@ func judge(h *History, obs []*BlockObs, crashed string, v *verdicts) {
 			break
 		}
 		v.counts["blocks_built"]++
+		for _, g := range o.GasSteps {
+			v.counts[[]string{"worker_tx_applied", "worker_tx_nonce", "worker_tx_no_money_for_gas", "worker_tx_refused_by_pool", "worker_tx_intrinsic_gas", "worker_tx_value_transfer_impossible", "", "", "", "worker_tx_other_error"}[g.Kind]]++
+		}
 		if !h.Plain {
 			v.counts["txs_submitted"] += o.Submitted
 			v.counts["txs_refused_by_pool"] += len(o.PoolErrs)
@@ -603,6 +645,20 @@ func casesOf(h *History, o *BlockObs) (out []string, descs []interface{}) {
 	emit(fmt.Sprintf("CBlock %s %d %s %s %s %s", vf.List(txs), o.GasUsed, "("+o.GasRewards+")", vf.List(cum), vf.List(st), vf.Bool(gasOK)), "block")
 	if h.Plain {
 		return
+	}
+	// CGas: the worker's pool over the candidates it tried
+	if o.HasPool && len(o.GasSteps) > 0 {
+		var steps []string
+		known := true
+		for _, g := range o.GasSteps {
+			if g.Kind == 9 {
+				known = false
+			}
+			steps = append(steps, fmt.Sprintf("(%d, %d%%N, %d)", g.Limit, g.Kind, g.Used))
+		}
+		if known {
+			emit(fmt.Sprintf("CGas %d %s %d", o.BlockGasLimit, vf.List(steps), o.FinalPool), "gas")
+		}
 	}
 	// CEvid
 	if len(o.Evs) > 0 {
